@@ -5,7 +5,7 @@ CONSTANTS
   MaxMsgs = {130}
   CtlLens = {0, 125}
   PieceKinds = {"half"}
-  Viols = {"rsv1", "rsv2", "rsv3", "badop", "fragctl", "bigctl", "contnostart", "datainfrag"}
+  Viols = {"rsv1", "rsv2", "rsv3", "badop", "badopfrag", "fragctl", "bigctl", "contnostart", "datainfrag"}
   BadOps = {3, 7, 11, 15}
   MaxAfter = 1
   MaxDelivered = 99
